@@ -36,6 +36,17 @@ class VInf (α : Type) extends VNum α where
   /-- `x > max - 500.` (D) / `x > max - 50.` evaluated in double (F): the window test of `LogSum` -/
   inWindow : α → α → Bool
 
+/-- what `esl_{D,F}Compare_old` (easel.c) needs beyond `VNum` -/
+class VCmp (α : Type) extends VNum α where
+  isInf : α → Bool
+  isNaN : α → Bool
+  /-- `isfinite(x)` -/
+  isFinite : α → Bool
+  /-- `fabs(x) <= tol` (the float version promotes both sides to double: same truth value) -/
+  absLe : α → α → Bool
+  /-- `2.*fabs(a-b) / fabs(a+b) <= tol` as written: `a-b`, `a+b` in the element type, the rest in double -/
+  relLe : α → α → α → Bool
+
 open VOrd VNum VInf
 
 section generic
@@ -165,6 +176,24 @@ def logValidate [VInf α] (v : List α) (tol : α) : Bool :=
 def log2Validate [VInf α] (v : List α) (tol : α) : Bool :=
   if v.isEmpty then true else validate (v.map exp2) tol
 
+/-! ### approximate equality: `esl_{D,F}Compare_old` (easel.c) and `esl_vec_{D,F}Compare` -/
+/-- `esl_{D,F}Compare_old(a, b, tol)`, line by line; `true` = `eslOK`.  (`fabs(a) == 0.` is `a == 0.`: also true for `-0.`.) -/
+def compareOld [VCmp α] (a b tol : α) : Bool :=
+  if VCmp.isInf a && VCmp.isInf b then true                                  -- if (isinf(a) && isinf(b)) return eslOK;   (any signs!)
+  else if VCmp.isNaN a && VCmp.isNaN b then true                             -- if (isnan(a) && isnan(b)) return eslOK;
+  else if !(VCmp.isFinite a) || !(VCmp.isFinite b) then false                -- if (!isfinite(a) || !isfinite(b)) return eslFAIL;
+  else if eq a b then true                                                   -- if (a == b) return eslOK;
+  else if eq a (ofNat 0) && VCmp.absLe b tol then true                       -- if (fabs(a) == 0. && fabs(b) <= tol) return eslOK;
+  else if eq b (ofNat 0) && VCmp.absLe a tol then true                       -- if (fabs(b) == 0. && fabs(a) <= tol) return eslOK;
+  else if VCmp.relLe a b tol then true                                       -- if (2.*fabs(a-b) / fabs(a+b) <= tol) return eslOK;
+  else false                                                                 -- return eslFAIL;
+/-- the status code: `eslOK` = 0, `eslFAIL` = 1 -/
+def compareOldStatus [VCmp α] (a b tol : α) : Int := if compareOld a b tol then 0 else 1
+/-- `esl_vec_{D,F}Compare`: `for (i..) if (Compare_old(vec1[i], vec2[i], tol) == eslFAIL) return eslFAIL; return eslOK;` ; `true` = `eslOK` -/
+def vcompare [VCmp α] (v w : List α) (tol : α) : Bool := (List.zip v w).all fun p => compareOld p.1 p.2 tol
+/-- `esl_vec_{I,L}Compare` -/
+def icompare [BEq α] (v w : List α) : Bool := (List.zip v w).all fun p => p.1 == p.2
+
 end generic
 
 /-! ### integer variants (`int`, `int64_t`; modelled on `Int`, no wrap-around: signed overflow is undefined in C) -/
@@ -191,6 +220,13 @@ instance : VInf Float where
   exp2 := Float.exp2
   inWindow m x := x > m - 500.0
 
+instance : VCmp Float where
+  isInf := Float.isInf
+  isNaN := Float.isNaN
+  isFinite := Float.isFinite
+  absLe x tol := Float.abs x ≤ tol
+  relLe a b tol := 2.0 * Float.abs (a - b) / Float.abs (a + b) ≤ tol
+
 /-! ### binary32 instance (the `F` routines; sub-expressions the C source evaluates in `double` are evaluated in `Float`) -/
 instance : VNum Float32 where
   lt a b := a < b
@@ -209,5 +245,18 @@ instance : VInf Float32 where
   log := Float32.log
   exp2 := Float32.exp2
   inWindow m x := x.toFloat > m.toFloat - 50.0
+
+instance : VCmp Float32 where
+  isInf := Float32.isInf
+  isNaN := Float32.isNaN
+  isFinite := Float32.isFinite
+  absLe x tol := Float.abs x.toFloat ≤ tol.toFloat
+  relLe a b tol := 2.0 * Float.abs (a - b).toFloat / Float.abs (a + b).toFloat ≤ tol.toFloat
+
+/-! ### conversions `esl_vec_D2F / F2D / I2F / I2D`: `dst[i] = src[i]` with C's implicit conversion -/
+def d2f (v : List Float) : List Float32 := v.map Float.toFloat32
+def f2d (v : List Float32) : List Float := v.map Float32.toFloat
+def i2f (v : List Int32) : List Float32 := v.map fun x => Float32.ofInt x.toInt
+def i2d (v : List Int32) : List Float := v.map fun x => Float.ofInt x.toInt
 
 end EaselModel.Vec
